@@ -95,17 +95,16 @@ def partB (v : SetView) : Bool :=
 def legacyB (v : SetView) : Bool := v.strat == .rolling && v.ru.isNone
 
 /-- a normal world (any pod management policy, any update strategy): valid spec, every pod object belongs to
-    the set (owned, member, selector, canonical name, storage ok, admitted, ordinal below MaxInt32), one pod per ordinal,
+    the set (owned, member, selector, canonical name, storage ok, admitted), one pod per ordinal,
     revisions quiet, sizes within the model's id scheme, the set found by the
     uncached GET -/
 def normCB (h : Hashing) (i : SyncIn) : Bool :=
   specOk i &&
   i.pods.all (fun c => c.owner == .self && c.member && c.selMatch && c.name == canonicalName i.setName c.pod.ord &&
     decide (0 ≤ c.pod.ord) && c.pod.stOk && c.pod.created) &&
-  i.pods.all (fun c => decide (c.pod.ord < maxInt32)) &&
   distinctOrdsC i.pods && revsQuiet h i &&
   decide (i.pods.length ≤ freshId) && decide ((replicasOf i.view).toNat ≤ freshId) &&
-  decide (replicasOf i.view + i.view.slots.length ≤ maxInt32) && !i.fresh.gone
+  !i.fresh.gone
 
 /-- room in the model's id scheme for the pods outside the desired set plus a full desired set -/
 def roomB (i : SyncIn) : Bool :=
